@@ -196,7 +196,15 @@ def c10_3(ctx):
         return
     payload = cands.pop()
     subj = "len(%s)" % payload
-    w = sym.int_walk(ctx, f, {subj})
+    # the length of what follows the 32 exponent bytes says the same as the length of the payload
+    base = sym.value_leaf(lambda e: norm(e) == subj, df.const_int)
+    tail = {"1 == len(%s[32:])" % payload: iv(33, 33), "0 == len(%s[32:])" % payload: iv(None, 32), "len(%s[32:]) == 1" % payload: iv(33, 33), "len(%s[32:]) == 0" % payload: iv(None, 32)}
+
+    def leaf(e, text):
+        if text in tail:
+            return ("set", tail[text])
+        return base(e, text)
+    w = sym.walk(ctx, f, leaf)
     calls = sym.calls_matching(w, "keys.private")
     if not calls:
         raise Undecided("ParseAPI.wif: call of keys.private not found")
@@ -253,6 +261,18 @@ def c10_4(ctx):
     ints = lambda t: t in ("length", "llen", "lengthlength", "endseq", "s0", "r", "v") or t.startswith(("len(", "ord("))
     for fn in ("encode_integer", "encode_sequence", "remove_sequence", "remove_integer", "encode_length", "read_length", "sigencode_der", "sigdecode_der"):
         sym.against_reference(ctx, ctx.func(DER, fn), _ref(), [fn, fn + "_v2"] if fn == "remove_integer" else fn, "der:%s" % fn, ints, inline=False)
+    # a truncated element is refused with the documented error before anything is indexed: a zero-length integer, no length byte
+    ri = ctx.func(DER, "remove_integer")
+    w_ = sym.walk(ctx, ri, int_names=ints)
+    is_der_raise = ru.is_raise_of("UnexpectedDER")
+    ctx.check(sym.guard_present(w_, is_der_raise, lambda o: (o.startswith("0 == ") or o.endswith(" == 0") or o.endswith(" < 1")) and ("read_length(" in o or "length" in o) and "len(" not in o), "der-zero-length-integer", ctx.where(ri),
+              "remove_integer does not refuse an integer of declared length 0 with UnexpectedDER (a truncated signature ends in a TypeError / IndexError instead)")
+    rl = ctx.func(DER, "read_length")
+    sp = rl.params()[0]
+    w_ = sym.walk(ctx, rl, int_names=ints)
+    ctx.check(sym.guard_present(w_, is_der_raise, lambda o: o.replace(" ", "") in ("0==len(%s)" % sp, "len(%s)==0" % sp, "len(%s)<1" % sp))
+              or sym.guard_present(w_, is_der_raise, lambda o: o == "truthy(%s)" % sp, positive=False), "der-no-length-byte", ctx.where(rl),
+              "read_length does not refuse an empty length field with UnexpectedDER")
     # callers of the lenient / strict decoder handle exactly the documented errors
     for rel, fn, callee in (("pycoin/satoshi/checksigops.py", "checksigs", "parse_and_check_signature_blob"), (KEY, "Key.verify", "sigdecode_der")):
         c = ctx.func(rel, fn)
